@@ -153,7 +153,16 @@ def build_case(rng, pos, kind, treat, twice=None, degenerate=None, first="op1"):
     if degenerate == "zero-length":
         pts[c2] = list(pts[c1])
     centre = list(np.mean(np.array(pts), axis=0))
-    d = make_data(rng, kind, pts[c1], pts[c2], centre) if degenerate != "zero-length" else {"kind": "arc", "arc_point": list(np.array(pts[c1]) + 0.1)}
+    if degenerate == "zero-length":
+        # a collapsed edge (wedge-type geometry) carrying any curved kind must not be written
+        zk = rng.choice(["arc", "project", "spline", "polyLine"])
+        p0 = np.array(pts[c1])
+        d = {"arc": {"kind": "arc", "arc_point": list(p0 + 0.1)},
+             "project": {"kind": "project", "labels": ["geoA"]},
+             "spline": {"kind": "spline", "points": [list(p0 + [0.1, 0.0, 0.05]), list(p0 + [0.0, 0.12, 0.0])]},
+             "polyLine": {"kind": "polyLine", "points": [list(p0 + [0.1, 0.0, 0.05]), list(p0 + [0.0, 0.12, 0.0])]}}[zk]
+    else:
+        d = make_data(rng, kind, pts[c1], pts[c2], centre)
     if degenerate == "collinear-arc":
         t = rng.uniform(0.2, 0.8)
         d = {"kind": "arc", "arc_point": list(np.array(pts[c1]) * (1 - t) + np.array(pts[c2]) * t)}
